@@ -283,14 +283,15 @@ pub fn make_module() -> KMap {
                     let l = l.clone();
                     let f = f.clone();
 
-                    let mut write_index = 0;
-                    for read_index in 0..l.len() {
-                        let value = l.data()[read_index].clone();
+                    // The predicate might modify the list, so the values to retain are collected
+                    // from a copy of the list's contents.
+                    let values: Vec<_> = l.data().iter().cloned().collect();
+                    let mut retained = Vec::with_capacity(values.len());
+                    for value in values {
                         match ctx.vm.call_function(f.clone(), value.clone()) {
                             Ok(KValue::Bool(result)) => {
                                 if result {
-                                    l.data_mut()[write_index] = value;
-                                    write_index += 1;
+                                    retained.push(value);
                                 }
                             }
                             Ok(unexpected) => {
@@ -302,7 +303,11 @@ pub fn make_module() -> KMap {
                             Err(error) => return Err(error),
                         }
                     }
-                    l.data_mut().resize(write_index, KValue::Null);
+                    {
+                        let mut data = l.data_mut();
+                        data.clear();
+                        data.extend(retained);
+                    }
                     l
                 }
                 (KValue::List(l), [value]) => {
@@ -393,7 +398,10 @@ pub fn make_module() -> KMap {
 
         match ctx.instance_and_args(is_list, expected_error)? {
             (KValue::List(a), [KValue::List(b)]) => {
-                std::mem::swap(a.data_mut().deref_mut(), b.data_mut().deref_mut());
+                // Swapping a list with itself has no effect (and it can't be borrowed twice)
+                if !a.is_same_instance(b) {
+                    std::mem::swap(a.data_mut().deref_mut(), b.data_mut().deref_mut());
+                }
                 Ok(KValue::Null)
             }
             (instance, args) => unexpected_args_after_instance(expected_error, instance, args),
